@@ -132,6 +132,22 @@ theorem C15_pipe_limit (n cnt : Nat) (ls : List Line) :
   | nil => rfl
   | cons l ls ih => simp [pipeLines, pipeLine, ppStep, limitLines, ih]
 
+/-- T6: every file of a run is post-processed as if it were the only one: whatever the processors' state
+when the run starts and whatever files came before, the k-th file is `output pps zeros` of its own chunks
+(the processors are reset before the first line of each file). -/
+theorem C15_files_independent (pps : List PP) (ss : List Nat) (files : List (List Str))
+    (h : ss.length = pps.length) :
+    genFiles pps ss files = files.map (fun f => output pps (List.replicate pps.length 0) f) := by
+  induction files generalizing ss with
+  | nil => rfl
+  | cons f fs ih =>
+    have hr : resetAll ss = List.replicate pps.length 0 := resetAll_eq ss _ h
+    have hl : (genFile pps (resetAll ss) f).2.length = pps.length := by
+      simp [genFile, pipeLinesSt_length, hr]
+    simp only [genFiles, List.map_cons]
+    rw [ih _ hl]
+    simp [genFile, output, pipeLinesSt_fst, hr]
+
 /-! ### The defect repaired by the `fix:` commit (kept as a regression witness)
 
 Before the fix the generator loop had no carry for a `\r` that ends a chunk: the chunking
@@ -139,6 +155,13 @@ Before the fix the generator loop had no carry for a `\r` that ends a chunk: the
 Chunking independence was false of that code. -/
 example : genLinesBeforeFix [['a', ' ', '\r'], ['\n', 'b']] ≠ specLines ['a', ' ', '\r', '\n', 'b'] := by
   decide
+
+/-- Before the `reset()` hook the limiter's count survived from file to file: after a file ending in an empty
+line, `"\n\ny\n"` lost one of its two leading empty lines under `limit 2`. -/
+example : genFilesBeforeFix [.limit 2] [0] [[['x', '\n', '\n']], [['\n', '\n', 'y', '\n']]]
+    ≠ [[['x', '\n', '\n']], [['\n', '\n', 'y', '\n']]].map (fun f => output [.limit 2] [0] f) := by decide
+example : genFiles [.limit 2] [5] [[['x', '\n', '\n']], [['\n', '\n', 'y', '\n']]]
+    = [['x', '\n', '\n'], ['\n', '\n', 'y', '\n']] := by decide
 
 /-! ### Non-vacuity: concrete, non-trivial instances -/
 
